@@ -105,11 +105,7 @@ func runHistory(r *core.Run, cid string, L int) {
 		case x < 64:
 			// governance replaces the client of one path by another type and back: whatever was accepted stays accepted
 			a, b := s.RandNodePair()
-			gov := s.ToggleRoundTrip
-			if rng.Intn(2) == 0 {
-				gov = s.UpgradeClient
-			}
-			if err := gov(a, b); err != nil {
+			if err := s.GovClientOp(a, b); err != nil {
 				r.Inconclusive("%s: client toggle / upgrade failed: %v", cid, err)
 				return
 			}
@@ -132,7 +128,23 @@ func runHistory(r *core.Run, cid string, L int) {
 			h.tssTraffic("fresh-bulk")
 		}
 	}
-	// closing steps: after an accepted sequence b, b+gap for every gap of the list, each followed by b again
+	// closing steps: every client of every chain goes through each governance operation once (whatever was accepted from
+	// that counterparty stays accepted: finalCheck compares the stored receipts and acknowledgements with the accepted set)
+	for _, a := range s.W.Nodes {
+		for _, b := range s.W.Nodes {
+			if a == b {
+				continue
+			}
+			for _, op := range []func(*core.Node, *core.Node) error{s.UpgradeClientRevisionRoundTrip, s.ToggleRoundTrip, s.UpgradeClient} {
+				if err := op(a, b); err != nil {
+					r.Inconclusive("%s: closing governance operation failed: %v", cid, err)
+					return
+				}
+				r.Count("client_governance_operations_at_history_close", 1)
+			}
+		}
+	}
+	// after an accepted sequence b, b+gap for every gap of the list, each followed by b again
 	for _, g := range seqGaps {
 		h.forceGap = g
 		h.tssTraffic("gap")
